@@ -1,6 +1,7 @@
 package main
 
 import (
+	"go/constant"
 	"go/token"
 	"go/types"
 	"sort"
@@ -185,6 +186,7 @@ func ruleMapDelegates(c *Ctx, r *R) {
 			}
 			okBool := false
 			constOnly := true
+			contradicts := false
 			instrs(fn, func(b *ssa.BasicBlock, i int, in ssa.Instruction) {
 				ret, ok := in.(*ssa.Return)
 				if !ok || len(ret.Results) == 0 {
@@ -192,7 +194,28 @@ func ruleMapDelegates(c *Ctx, r *R) {
 				}
 				for _, lf := range valueLeaves(ret.Results[len(ret.Results)-1], nil, 0) {
 					res := lf.v
-					if _, isC := res.(*ssa.Const); isC {
+					if k, isC := res.(*ssa.Const); isC {
+						// `return typed, true` on a path where sync.Map's own ok is known to be true IS sync.Map's answer
+						if k.Value != nil && k.Value.Kind() == constant.Bool {
+							for _, g := range guardsOf(b) {
+								cond, val := g.cond, g.val
+								for {
+									u, isU := cond.(*ssa.UnOp)
+									if !isU || u.Op != token.NOT {
+										break
+									}
+									cond, val = u.X, !val
+								}
+								if ex, ok := resolveVal(cond).(*ssa.Extract); ok && ex.Tuple == ssa.Value(call) {
+									if val == constant.BoolVal(k.Value) {
+										okBool = true
+										constOnly = false
+									} else {
+										contradicts = true
+									}
+								}
+							}
+						}
 						continue
 					}
 					constOnly = false
@@ -210,6 +233,10 @@ func ruleMapDelegates(c *Ctx, r *R) {
 			if !okBool && !constOnly && fn.Signature.Results().Len() == 2 {
 				good = false
 				why = "the ok/loaded result is not the one sync.Map returned"
+			}
+			if contradicts && fn.Signature.Results().Len() == 2 {
+				good = false
+				why = "a path on which sync.Map's ok/loaded is known returns the opposite constant"
 			}
 			if constOnly && fn.Signature.Results().Len() == 2 {
 				// e.g. `return value_.(V), true`: fine only under the matching guard; require at least one non-constant return
@@ -251,7 +278,9 @@ func ruleFutureOrder(c *Ctx, r *R) {
 		// reports it through its boolean result)
 		pkgOf := fn.Pkg
 		unbind := bindChanParams(fn) // a shared select helper sees this function's channels (readyBeforeDone(done, f.c))
-		pf := &PF{N: 2, InScope: func(f *ssa.Function) bool { return rootFn(origin(f)).Pkg == pkgOf && f.Blocks != nil && origin(f) != fn }}
+		pf := &PF{N: 2, InScope: func(f *ssa.Function) bool {
+			return rootFn(origin(f)).Pkg == pkgOf && f.Blocks != nil && origin(f) != fn
+		}}
 		isC := func(ch ssa.Value) bool { return fieldOfChan(ch) == "c" }
 		pf.Instr = func(f *ssa.Function, in ssa.Instruction, q int) (StateSet, bool) {
 			if u, ok := in.(*ssa.UnOp); ok && u.Op == token.ARROW && isC(u.X) {
